@@ -3,7 +3,7 @@
 From Coq Require Import List NArith ZArith Bool Lia ZifyBool ZifyN.
 From PV Require Import Base.Base64 Model.ShareLink.
 Import ListNotations.
-Open Scope N_scope.
+Local Open Scope N_scope.
 Ltac Zify.zify_post_hook ::= Z.div_mod_to_equations.
 
 (* ---------- finite sweep over the 64 sextets, lifted to all s < 64 ---------- *)
